@@ -39,6 +39,7 @@
 #include <arpa/inet.h>
 #include <netinet/in.h>
 #include <sys/socket.h>
+#include <sys/time.h>
 #include <sys/types.h>
 #include <unistd.h>
 #endif
@@ -91,6 +92,10 @@ void close_socket(NativeSocket socket) {
 #endif
 
 constexpr std::size_t kMaxLineLength = 16 * 1024;
+// Longest the accept thread waits in a single recv/send on a client socket. Clients are served one at a
+// time, so a client that stops sending (or stops reading its response) may hold up the others for this
+// long at most before it is dropped. It bounds inactivity, not the length of a transfer.
+constexpr std::chrono::milliseconds kControlClientTimeout{5000};
 constexpr std::chrono::seconds kStoreRateWindow{std::chrono::seconds(30)};
 constexpr std::size_t kStoreRateBurstLimit = 6;
 constexpr std::chrono::seconds kStorePowFailureWindow{std::chrono::seconds(120)};
@@ -124,6 +129,22 @@ bool send_all(NativeSocket socket, const char* data, std::size_t length) {
         total_sent += static_cast<std::size_t>(sent);
     }
     return true;
+}
+
+bool set_io_timeouts(NativeSocket socket, std::chrono::milliseconds timeout) {
+#ifdef _WIN32
+    const DWORD value = static_cast<DWORD>(timeout.count());
+    const auto* option = reinterpret_cast<const char*>(&value);
+    const int length = sizeof(value);
+#else
+    timeval value{};
+    value.tv_sec = static_cast<time_t>(timeout.count() / 1000);
+    value.tv_usec = static_cast<suseconds_t>((timeout.count() % 1000) * 1000);
+    const auto* option = reinterpret_cast<const char*>(&value);
+    const socklen_t length = sizeof(value);
+#endif
+    return ::setsockopt(socket, SOL_SOCKET, SO_RCVTIMEO, option, length) == 0 &&
+           ::setsockopt(socket, SOL_SOCKET, SO_SNDTIMEO, option, length) == 0;
 }
 
 bool recv_line(NativeSocket socket, std::string& line) {
@@ -584,6 +605,7 @@ private:
     // stop() invalidates it while the accept thread is still reading it
     std::atomic<NativeSocket> listen_socket_{kInvalidSocket};
     std::thread accept_thread_;
+    std::chrono::milliseconds client_io_timeout_{kControlClientTimeout};
     std::atomic<bool> transport_stopped_{false};
     std::mutex rate_mutex_;
     std::unordered_map<std::string, std::vector<std::chrono::steady_clock::time_point>> store_history_;
@@ -667,6 +689,15 @@ private:
             log_event(StructuredLogger::Level::Info,
                       "control.connection.accepted",
                       {{"remote", remote_address}});
+            // Every read and write on this connection is bounded: a silent or stalled client is dropped
+            // after client_io_timeout_ instead of keeping all other control clients waiting.
+            if (!set_io_timeouts(client, client_io_timeout_)) {
+                log_event(StructuredLogger::Level::Warning,
+                          "control.connection.timeout_unavailable",
+                          {{"remote", remote_address}});
+                close_socket(client);
+                continue;
+            }
             try {
                 handle_client(client, remote_address);
             } catch (const std::exception& ex) {
